@@ -88,6 +88,74 @@ def requirement(prog, name):
     return False, 'unknown requirement'
 
 
+ORDER_SENSITIVE = ('find', 'find_map', 'position', 'rposition', 'take', 'nth', 'last', 'take_while', 'skip_while', 'map_while', 'step_by')
+
+
+def _seeded_source(b, cs):
+    """the iteration call (iter / keys / ...) over a per-process-seeded hash container that the receiver of cs is built from"""
+    if not cs.t['args']:
+        return None
+    sites = {x.bb: x for x in b.calls()}
+    for e in mirlib.subexprs(cs.arg(0)):
+        if e and e[0] == 'call' and len(e) > 3 and e[3] in sites:
+            src = sites[e[3]]
+            if ITER.match(src.name) and src.argtys and container(src.argtys[0]):
+                return src
+    return None
+
+
+def order_sensitive_consumers(rep, rule, prog):
+    """an audited iteration over a seeded hash container is order-insensitive only if it is consumed as a whole: a `for`
+    loop over it must not leave early (`break` / `return` / `?`), and no adaptor that stops at or picks by position
+    (find, position, take, nth, last, next outside a loop ...) may consume it"""
+    n = 0
+    for b in sorted(prog.bodies.values(), key=lambda b: b.id):
+        if not in_scope(b):
+            continue
+        succ, pred, reach = b.cfg
+        for cs in b.calls():
+            if cs.name not in ORDER_SENSITIVE and cs.name != 'next':
+                continue
+            src = _seeded_source(b, cs)
+            if src is None:
+                continue
+            n += 1
+            c = container(src.argtys[0])
+            key = '%s|%s|%s over %s' % (rule, b.key, cs.name, c)
+            if cs.name != 'next':
+                rep.bad(rule, key, cs.loc(), '%s consumes an iteration over %s by position (%s): which element it stops at / picks depends on the per-process hash seed' % (b.key, c, cs.name))
+                continue
+            # the loop of this `next`: blocks on a cycle through it
+            on_cycle = any(cs.bb in b.reach_from(y) for y in succ[cs.bb])
+            loop = {x for x in b.reach_from(cs.bb) if cs.bb in b.reach_from(x)} if on_cycle else {cs.bb}
+            if not on_cycle:
+                rep.bad(rule, key, cs.loc(), '%s takes the first element of an iteration over %s: which one that is depends on the per-process hash seed' % (b.key, c))
+                continue
+            # the regular exit: the switch on the discriminant of what next() returned (None)
+            exits = []
+            for x in sorted(loop):
+                if b.bbs[x]['cleanup']:
+                    continue
+                for y in succ[x]:
+                    if y in loop or b.bbs[y]['cleanup']:
+                        continue
+                    t = b.bbs[x]['t']
+                    regular = False
+                    if t['k'] == 'switch':
+                        e = b.expr_op(t['o'])
+                        if e[0] == 'discr' and e[1][0] == 'call' and len(e[1]) > 3 and e[1][3] == cs.bb:
+                            regular = True
+                    if t['k'] in ('drop', 'call') and len([z for z in succ[x] if not b.bbs[z]['cleanup']]) == 1 and False:
+                        regular = True
+                    if not regular:
+                        exits.append(b.loc(t.get('ln')))
+            if exits:
+                rep.bad(rule, key, exits[0], 'the loop over %s in %s can be left before all elements were visited (%s): which elements are processed depends on the per-process hash seed, so the generated output may differ from run to run' % (c, b.key, exits[:2]))
+            else:
+                rep.ok(rule, key, 'for loop visits every element (the only exit is the end of the iteration)', cs.loc())
+    rep.notes.append('order-sensitive consumers of seeded hash iterations examined: %d' % n)
+
+
 def _present_keys(prog):
     out = set()
     for b in prog.bodies.values():
@@ -184,6 +252,7 @@ def run(ctx):
     else:
         rep.ok('R17.c', 'R17.c|selftest', 'matcher recognises SystemTime::now / env::var')
     rep.notes.append('FxHash iterations exempt: %d' % nfx)
+    order_sensitive_consumers(rep, 'R17.e', prog)
     rep.floor('R17.a', 5)
     rep.floor('R17.b', 2)
     return rep
